@@ -170,6 +170,8 @@ class PROP(Prop):
                 return "write fault %s at offset %d: call returned %s" % (m["fault"], m["off"], r1[:60])
             want = bytes.fromhex(m["frame"]) + bytes.fromhex(m["frame2"])
             got = w1 + w2
+            if not r2.startswith("OK:"):
+                return "after a send that failed (%s) the transport accepted everything and delivered the reply, but the next call returned %s: its result does not follow from what the transport did" % (m["fault"], r2[:60])
             if got != want[:len(got)] or (r2.startswith("OK:") and got != want):
                 return "after a write fault at offset %d the transport received %s over the client's lifetime; the frames are %s" % (m["off"], got.hex()[:80], want.hex()[:80])
             return None
